@@ -14,9 +14,11 @@ import (
 	"testing"
 	"time"
 
+	rhp3 "go.sia.tech/core/rhp/v3"
 	proto4 "go.sia.tech/core/rhp/v4"
 	"go.sia.tech/core/types"
 	rhp4 "go.sia.tech/coreutils/rhp/v4"
+	"go.sia.tech/hostd/v2/host/accounts"
 	"go.sia.tech/hostd/v2/host/contracts"
 	"go.sia.tech/hostd/v2/index"
 	"go.sia.tech/hostd/v2/internal/verifh/vhlib"
@@ -42,6 +44,7 @@ type world struct {
 	buf   uint64
 	defs  map[int]*cdef
 	order []int
+	bal   map[int]uint64 // account balances as far as the generator knows (to aim debits below the balance)
 }
 
 var (
@@ -60,7 +63,7 @@ func cnum(id types.FileContractID) int { return int(binary.LittleEndian.Uint64(i
 func cur(n uint64) types.Currency { return types.NewCurrency64(n) }
 
 func newWorld(t *testing.T, rb, buf uint64) *world {
-	return &world{t: t, st: vhlib.OpenStore(t, t.TempDir()), rb: rb, buf: buf, defs: map[int]*cdef{}}
+	return &world{t: t, st: vhlib.OpenStore(t, t.TempDir()), rb: rb, buf: buf, defs: map[int]*cdef{}, bal: map[int]uint64{}}
 }
 
 func (w *world) close() { w.st.Close() }
@@ -383,6 +386,88 @@ func (w *world) doUsage(tr *vhlib.Trace, n int, rev uint64, u usage8) {
 		d.rev = rev
 	}
 	tr.Line(fmt.Sprintf("usage c=%d rev=%d u=%s", n, rev, fmtU(u)), "res="+res)
+	w.observe(tr)
+}
+
+func acctKey(a int) types.PublicKey {
+	seed := make([]byte, 32)
+	seed[0], seed[1] = 0xAC, byte(a)
+	return types.NewPrivateKeyFromSeed(seed).PublicKey()
+}
+
+// doAcct drives the account operations that change contract usage (and with it the metrics):
+// fund/debit through the RHP3 store calls, fund2/debit2 through the RHP4 ones. The driver does not
+// predict how a debit is attributed to funding contracts (C11, accounts engine); it adopts the
+// rows the implementation reports and checks that the metrics moved by exactly the usage the
+// rows gained, routed by each contract's status.
+func (w *world) doAcct(tr *vhlib.Trace, kind string, c, a int, rev, amt, cost uint64, u usage8) {
+	d := w.defs[c]
+	var err error
+	p, msg := vhlib.Try(func() {
+		switch kind {
+		case "fund":
+			if d == nil || d.v2 {
+				err = fmt.Errorf("not a v1 contract")
+				return
+			}
+			err = w.st.CreditAccountWithContract(accounts.FundAccountWithContract{Account: rhp3.Account(acctKey(a)), Cost: cur(cost), Amount: cur(amt),
+				Revision: d.v1rev(rev), Expiration: time.Now().Add(time.Hour)})
+		case "debit":
+			err = w.st.DebitAccount(rhp3.Account(acctKey(a)), accounts.Usage{RPCRevenue: cur(u[0]), StorageRevenue: cur(u[1]), IngressRevenue: cur(u[2]),
+				EgressRevenue: cur(u[3]), RegistryRead: cur(u[4]), RegistryWrite: cur(u[5])})
+		case "fund2":
+			if d == nil || !d.v2 {
+				err = fmt.Errorf("not a v2 contract")
+				return
+			}
+			_, err = w.st.RHP4CreditAccounts([]proto4.AccountDeposit{{Account: proto4.Account(acctKey(a)), Amount: cur(amt)}}, cid(c), d.v2fc(rev),
+				proto4.Usage{RPC: cur(cost), AccountFunding: cur(amt)})
+		case "debit2":
+			err = w.st.RHP4DebitAccount(proto4.Account(acctKey(a)), proto4.Usage{RPC: cur(u[0]), Storage: cur(u[1]), Ingress: cur(u[2]), Egress: cur(u[3])})
+		}
+	})
+	res := classify(p, msg, err)
+	if res == "ok" && (kind == "fund" || kind == "fund2") {
+		d.rev = rev
+		w.bal[a] += amt
+	} else if res == "ok" {
+		var t uint64
+		for _, x := range u[:6] {
+			t += x
+		}
+		if w.bal[a] >= t {
+			w.bal[a] -= t
+		}
+	}
+	tr.Count("acct:" + kind + ":" + res)
+	tr.Line(fmt.Sprintf("acct kind=%s c=%d a=%d rev=%d amt=%d cost=%d u=%s", kind, c, a, rev, amt, cost, fmtU(u)), "res="+res)
+	w.observe(tr)
+}
+
+// doRenew1 is Store.RenewContract: the old contract is cleared (revision number max, clearing usage)
+// and a new pending contract with its own collateral and usage is inserted
+func (w *world) doRenew1(tr *vhlib.Trace, old int, nd *cdef, cu usage8) {
+	d := w.defs[old]
+	var err error
+	p, msg := vhlib.Try(func() {
+		if d == nil || d.v2 {
+			err = fmt.Errorf("not a v1 contract")
+			return
+		}
+		toU := func(u usage8) contracts.Usage {
+			return contracts.Usage{RPCRevenue: cur(u[0]), StorageRevenue: cur(u[1]), IngressRevenue: cur(u[2]), EgressRevenue: cur(u[3]),
+				RegistryRead: cur(u[4]), RegistryWrite: cur(u[5]), AccountFunding: cur(u[6]), RiskedCollateral: cur(u[7])}
+		}
+		fs := []types.Transaction{{ArbitraryData: [][]byte{marker(nd.n)}}}
+		err = w.st.RenewContract(nd.v1rev(nd.rev), d.v1rev(1<<62), fs, cur(nd.locked), toU(cu), toU(nd.u), nd.neg)
+	})
+	res := classify(p, msg, err)
+	if res == "ok" {
+		d.rev = 1 << 62
+		w.defs[nd.n] = nd
+		w.order = append(w.order, nd.n)
+	}
+	tr.Line(fmt.Sprintf("renew1 c=%d new=%d neg=%d ws=%d we=%d rev=%d locked=%d u=%s cu=%s", old, nd.n, nd.neg, nd.ws, nd.we, nd.rev, nd.locked, fmtU(nd.u), fmtU(cu)), "res="+res)
 	w.observe(tr)
 }
 
@@ -823,7 +908,70 @@ func genHistory(t *testing.T, tr *vhlib.Trace, r *vhlib.Rand, n int, illRate int
 					}
 				}
 			}
-		case x < 90 && len(w.order) > 0:
+		case x < 84 && len(w.order) > 0:
+			// account funding / spending and renewals: usage-changing operations of C05
+			c := w.order[r.Intn(len(w.order))]
+			d := w.defs[c]
+			a := r.Intn(3)
+			switch k := r.Intn(7); {
+			case k < 3:
+				kind := "fund"
+				if d.v2 {
+					kind = "fund2"
+				}
+				w.doAcct(tr, kind, c, a, d.rev+1, uint64(1+r.Intn(30)), uint64(r.Intn(4)), usage8{})
+			case k < 6:
+				var u usage8
+				if r.Chance(5, 6) {
+					// prefer an account that has been funded
+					var funded []int
+					for k := 0; k < 3; k++ {
+						if w.bal[k] > 0 {
+							funded = append(funded, k)
+						}
+					}
+					if len(funded) > 0 {
+						a = funded[r.Intn(len(funded))]
+					}
+				}
+				left := w.bal[a]
+				if r.Chance(1, 6) {
+					left += 5 // sometimes overdraw
+				}
+				for j := 0; j < 6 && left > 0; j++ {
+					if r.Chance(1, 2) {
+						u[j] = uint64(r.Intn(int(left) + 1))
+						if u[j] > 9 {
+							u[j] = uint64(r.Intn(9))
+						}
+						left -= u[j]
+					}
+				}
+				kind := vhlib.Pick(r, "debit", "debit2")
+				if kind == "debit2" {
+					u[4], u[5] = 0, 0
+				}
+				w.doAcct(tr, kind, 0, a, 0, 0, 0, u)
+			default:
+				if !d.v2 && len(w.order) < 7 {
+					g.next++
+					nd := &cdef{n: g.next, neg: g.tip(), ws: d.we + 1 + uint64(r.Intn(4)), rev: 1, locked: uint64(r.Intn(40))}
+					nd.we = nd.ws + 2 + uint64(r.Intn(4))
+					var cu usage8
+					for j := range cu {
+						if r.Chance(1, 3) {
+							nd.u[j] = uint64(r.Intn(12))
+							cu[j] = uint64(r.Intn(12))
+						}
+					}
+					cu[6] = 0
+					w.doRenew1(tr, c, nd, cu)
+					if _, ok := w.defs[nd.n]; ok {
+						g.addedAt[nd.n] = len(g.stack)
+					}
+				}
+			}
+		case x < 92 && len(w.order) > 0:
 			c := w.order[r.Intn(len(w.order))]
 			d := w.defs[c]
 			var u usage8
@@ -922,6 +1070,14 @@ func replay(t *testing.T, tr *vhlib.Trace, ops []vhlib.ParsedLine) {
 			}
 		case "usage":
 			w.doUsage(tr, op.Int("c"), op.U64("rev"), parseU(op.U64List("u")))
+		case "acct":
+			w.doAcct(tr, op.Args["kind"], op.Int("c"), op.Int("a"), op.U64("rev"), op.U64("amt"), op.U64("cost"), parseU(op.U64List("u")))
+		case "renew1":
+			nd := &cdef{n: op.Int("new"), neg: op.U64("neg"), ws: op.U64("ws"), we: op.U64("we"), rev: op.U64("rev"), locked: op.U64("locked"), u: parseU(op.U64List("u"))}
+			w.doRenew1(tr, op.Int("c"), nd, parseU(op.U64List("cu")))
+			if _, ok := w.defs[nd.n]; ok {
+				addedAt[nd.n] = len(stack)
+			}
 		case "actions":
 			w.doActions(tr, op.U64("h"))
 		case "resetchain":
